@@ -23,6 +23,7 @@ package main
 import (
 	"bytes"
 	"fmt"
+	"os"
 	"strings"
 
 	"verif/kit"
@@ -322,8 +323,8 @@ func buildModel(seq []int) *model {
 		li := lineInfo{from: i, to: j, spacesOnly: true}
 		for k := i; k < j; k++ {
 			e := &m.elems[k]
-			if e.multi {
-				li.multi = e.kind
+			if e.multi && li.multi != pValue {
+				li.multi = e.kind // a show, if any, names the line
 			}
 			li.url = li.url || e.url
 			switch {
@@ -622,6 +623,11 @@ func (m *model) verdict(out []byte) string {
 				return "c|whitespace-removed-on-several-content-lines|some-shared-with=" + multiName(l.multi)
 			}
 		}
+		for _, l := range m.lines {
+			if l.url && l.content {
+				return "c|whitespace-removed-on-several-content-lines|some-have=bare-url"
+			}
+		}
 		return "c|whitespace-removed-on-several-content-lines"
 	}
 	m.label(lvlRawWS, -1, 0)
@@ -888,14 +894,28 @@ func spaces(tier string) []kit.Space {
 		})
 	}
 	sps = append(sps, urlSpace(tier))
-	swLen, urlLen := 6, 5
+	swLen, urlLen, lineToks := 6, 5, 3
 	if tier == "thorough" {
-		swLen, urlLen = 7, 6
+		swLen, urlLen, lineToks = 7, 6, 4
 	}
 	for _, ext := range []string{"html", "txt"} {
-		sps = append(sps, linesSpace(ext, 4), switchSpace(ext, swLen), rawSpace(ext))
+		sps = append(sps, linesSpace(ext, lineToks), switchSpace(ext, swLen), rawSpace(ext))
 	}
-	sps = append(sps, mdurlSpace(urlLen), mdnestSpace(3), bigSpace(tier))
+	sps = append(sps, mdurlSpace(urlLen), mdnestSpace(tier), bigSpace(tier))
+	// developer aid: VERIF_C15_SPACES=lines,raw runs only the spaces whose name
+	// starts with one of the prefixes (never set by bin/check)
+	if f := os.Getenv("VERIF_C15_SPACES"); f != "" {
+		var sel []kit.Space
+		for _, sp := range sps {
+			for _, pre := range strings.Split(f, ",") {
+				if strings.HasPrefix(sp.Name, pre) {
+					sel = append(sel, sp)
+					break
+				}
+			}
+		}
+		return sel
+	}
 	return sps
 }
 
